@@ -225,7 +225,7 @@ class RefState(object):
         for p, u in sc0.bind.items():
             if u is not AMBIG and uri.startswith(u):
                 own = True
-        if sc0.default not in (None, AMBIG) and self.default_touched.get(s0) and uri.startswith(sc0.default) \
+        if sc0.default not in (None, AMBIG) and uri.startswith(sc0.default) \
                 and ":" not in uri[len(sc0.default):]:
             # (a bare name cannot contain a colon, so the default namespace cannot carry such a URI)
             own = True
@@ -236,7 +236,7 @@ class RefState(object):
             return False
         scp = self.sc[par]
         cands = [p for p, u in scp.bind.items() if u is not AMBIG and uri.startswith(u)]
-        dflt = scp.default not in (None, AMBIG) and self.default_touched.get(par) and uri.startswith(scp.default) \
+        dflt = scp.default not in (None, AMBIG) and uri.startswith(scp.default) \
             and ":" not in uri[len(scp.default):]
         if any(uri.startswith(u) and scp.primary.get(u) is None for u in scp.reg):
             # the parent also holds a covering namespace under a prefix the model cannot name
